@@ -357,6 +357,42 @@ pub fn dialect(tier: Tier) -> Vec<ByteFamily> {
             }),
         });
     }
+    // (d2) verbose network-trace messages whose arguments are not all raw data: the first argument is
+    // a string (incl. the segmentation markers NWST / NWCH / NWEN of the DLT network-trace
+    // convention), an integer or a bool; the payload decodes to the list of its raw arguments
+    {
+        let firsts: Vec<RefArg> = {
+            let mut v = vec![];
+            for t in ["NWST", "NWCH", "NWEN", "NWCX", "ABCD", "", "nwst", "NWST2"] {
+                v.push(mk_arg(RefKind::Str, None, 0, false, RefValue::Str(t.to_string()), None));
+                v.push(mk_arg(RefKind::Str, None, 1, false, RefValue::Str(t.to_string()), None));
+            }
+            v.push(mk_arg(RefKind::Uint(4), None, 0, false, RefValue::U(0x0102_0304, 4), None));
+            v.push(mk_arg(RefKind::Bool, None, 0, false, RefValue::Bool(1), None));
+            v
+        };
+        let nf = firsts.len();
+        let sp = Space::new(&[nf, 16, 3, 2]);
+        let s2 = sp.clone();
+        fams.push(ByteFamily {
+            name: "dialect.nw_trace_mixed".into(),
+            about: "verbose network-trace messages (all 16 sub-types) whose first argument is a string (the markers NWST / NWCH / NWEN, near-misses, empty; both codings), an integer or a bool, followed by 0 / 1 / 2 raw arguments x byte order".into(),
+            size: sp.size(),
+            gen: Box::new(move |i| {
+                let c = s2.coords(i);
+                let big = c[3] == 1;
+                let mut args = vec![firsts[c[0]].clone()];
+                for q in 0..c[2] {
+                    args.push(mk_arg(RefKind::Raw, None, 0, false, RefValue::Raw(vec![q as u8 + 1; 3 + q]), None));
+                }
+                // built as a log message (the reference encoder insists on payload kinds), MSIN patched to network trace
+                let m = msg_with(if big { 0x02 } else { 0 }, 1, Some(ext(MSTP_LOG, 4, "NW", "TR")), RefPayload::Verbose(args), None);
+                let mut b = enc(&m);
+                b[4] = 0x01 | (MSTP_NW_TRACE << 1) | ((c[1] as u8) << 4);
+                b
+            }),
+        });
+    }
     // (e) non-verbose / control payload lengths around their minima, NOAR arbitrary, verbose bit
     //     on a control message, message types 4..7
     {
